@@ -207,6 +207,18 @@ def check(run):
         run.rules[r3]["floor"] = 0
         if "C11-casts" in run.rules:
             run.rules["C11-casts"]["floor"] = 0
+    # a virtual_ptr argument is the pair (object, v-table pointer): the definition receives the caller's own pair, the thunk's
+    # cast<> adjusts the object and carries the v-table pointer over unchanged (rule shared with C09-copy)
+    from . import c09
+    from .. import callpath
+    run.rule("C11-vptr", "virtual_ptr arguments: cast<> / converting constructors on the thunk path carry the caller's v-table pointer over", floor=4)
+    for x in ("C11-y0", "C11-y1", "C11-y3"):
+        run.rule(x, "(decided by C09)", floor=0)
+    for u in callpath.build_units(run, ["release"] if run.tier == "quick" else ["release", "debug", "p_ind"], ["V", "W", "X", "Y"], ndebug=True, tag="c11v"):
+        c09.ir_rules(run, u, "C11-y0", "C11-y1", "C11-vptr", "C11-y3")
+    run.violations = [v for v in run.violations if not v["rule"].startswith("C11-y")]
+    for x in ("C11-y0", "C11-y1", "C11-y3"):
+        del run.rules[x]
     run.assumptions += ["run-time addresses (pointer adjustment values) and move counts are not observed; the kinds of conversion and the constructor calls present in the code are",
                         "the macro-generated inline function is std::forward on every parameter by construction of yOMM2_ALIST (checked as text of the macro expansion in the witness call wrappers compiled here)"]
     return run.finish(level="other", explanation="Type-checker witnesses over parameter kind x inheritance shape (same class, single base, second base at "
